@@ -154,7 +154,11 @@ pub(crate) fn get_paths_and_contents_for_imperatively_loaded_field<
 
     vec![
         ArtifactPathAndContent {
-            file_content: format!("export default '{query_text}';").into(),
+            file_content: format!(
+                "export default '{}';",
+                crate::operation_text::escape_for_single_quoted_js_string(&query_text.to_string())
+            )
+            .into(),
             artifact_path: ArtifactPath {
                 file_name: query_text_file_name_with_extension,
                 type_and_field: EntityNameAndSelectableName {
